@@ -623,6 +623,10 @@ func writeTypeConversion(w *formatting.IndentedWriter, typeChange dsl.TypeChange
 		w.Indented(func() {
 			writeTypeConversion(w, tc.InnerChange, sourceName+".value()", targetName, write)
 		})
+		fmt.Fprintf(w, "} else {\n")
+		w.Indented(func() {
+			writeTargetReset(w, targetName)
+		})
 		fmt.Fprintf(w, "}\n")
 
 	case *dsl.TypeChangeOptionalToScalar:
@@ -632,6 +636,10 @@ func writeTypeConversion(w *formatting.IndentedWriter, typeChange dsl.TypeChange
 			fmt.Fprintf(w, "if (%s.has_value()) {\n", sourceName)
 			w.Indented(func() {
 				fmt.Fprintf(w, "%s = %s.value();\n", targetName, sourceName)
+			})
+			fmt.Fprintf(w, "} else {\n")
+			w.Indented(func() {
+				writeTargetReset(w, targetName)
 			})
 			fmt.Fprintf(w, "}\n")
 		} else {
@@ -647,6 +655,10 @@ func writeTypeConversion(w *formatting.IndentedWriter, typeChange dsl.TypeChange
 			w.Indented(func() {
 				fmt.Fprintf(w, "%s = std::get<%d>(%s);\n", targetName, tc.TypeIndex, sourceName)
 			})
+			fmt.Fprintf(w, "} else {\n")
+			w.Indented(func() {
+				writeTargetReset(w, targetName)
+			})
 			fmt.Fprintf(w, "}\n")
 		} else {
 			// Reading a Scalar into a Union
@@ -661,6 +673,10 @@ func writeTypeConversion(w *formatting.IndentedWriter, typeChange dsl.TypeChange
 			fmt.Fprintf(w, "if (%s.index() == %d) {\n", sourceName, tc.TypeIndex)
 			w.Indented(func() {
 				fmt.Fprintf(w, "%s = std::get<%d>(%s);\n", targetName, tc.TypeIndex, sourceName)
+			})
+			fmt.Fprintf(w, "} else {\n")
+			w.Indented(func() {
+				writeTargetReset(w, targetName)
 			})
 			fmt.Fprintf(w, "}\n")
 		} else {
@@ -730,6 +746,12 @@ func writeTypeConversion(w *formatting.IndentedWriter, typeChange dsl.TypeChange
 	default:
 		panic("Expected a TypeChange")
 	}
+}
+
+// The target of a conversion may hold the value of an earlier read (readers reuse one object for all
+// items of a stream): where the source has nothing to convert, the target gets its default value.
+func writeTargetReset(w *formatting.IndentedWriter, targetName string) {
+	fmt.Fprintf(w, "%[1]s = std::remove_reference_t<decltype(%[1]s)>{};\n", targetName)
 }
 
 // If a TypeChange is the result of an underlying TypeDefinition change, we don't need to perform
